@@ -45,6 +45,8 @@ def parse_shape(text):
                 return ("char",)
             if n.id == "cstr":
                 return CSTR
+            if n.id == "vec3":
+                return ("vec", 3)
             return ("ref", n.id)
         if isinstance(n, ast.Subscript):
             head = n.value.id
@@ -201,6 +203,8 @@ def tmap(f, v):
         return f(to_z3(v))
     if isinstance(v, VChar):
         return VChar(f(to_z3(v.code)))
+    if type(v).__name__ == "VVec":
+        return type(v)([f(x) for x in v.c])
     if isinstance(v, VTuple):
         return VTuple([tmap(f, x) for x in v.items])
     if isinstance(v, VList):
@@ -226,6 +230,8 @@ def tzip(f, a, b):
         za = to_z3(a)
         zb = to_z3(b, "real" if _elem_sort(za) == z3.RealSort() else None)
         return f(za, zb)
+    if type(a).__name__ == "VVec":
+        return type(a)([f(x, y) for x, y in zip(a.c, b.c)])
     if isinstance(a, VChar):
         if isinstance(b, str) and len(b) == 1:
             b = VChar(ord(b))
@@ -320,6 +326,9 @@ def fresh(shape, name, idx=()):
         return leaf(z3.IntSort(), name)
     if kind == "char":
         return VChar(leaf(z3.IntSort(), name))
+    if kind == "vec":
+        from .expr import VVec
+        return VVec([leaf(z3.RealSort(), f"{name}.{k}") for k in range(shape[1])])
     if kind == "tuple":
         return VTuple([fresh(s, f"{name}.{k}", idx) for k, s in enumerate(shape[1])])
     if kind == "list":
@@ -403,6 +412,8 @@ def shape_of(v):
         raise Unsupported(f"shape of leaf sort {s}")
     if isinstance(v, VChar):
         return ("char",)
+    if type(v).__name__ == "VVec":
+        return ("vec", len(v.c))
     if isinstance(v, VTuple):
         return ("tuple", tuple(shape_of(x) for x in v.items))
     if isinstance(v, VList):
